@@ -82,6 +82,7 @@ type Monitor struct {
 	timeoutMs uint64
 	// ghost state
 	ghostObsH            map[string]uint64 // chain -> external height of the last applied event (C13)
+	mxg                  *mxGhost                   // C08, Minter side (mloop profile)
 	ghostConfs           map[string]map[string]bool // C08: tx key -> lower(external address) of every confirmation the message server accepted
 	loopMode             bool              // "world loop": executions happen on the ghost external chain, the hub only hears of them
 	loopTainted          bool              // an execution claim the ghost contracts could not have emitted: history is not truthful
@@ -1409,11 +1410,24 @@ func (m *Monitor) checkC04(g *Gen, w []string, out string, b, a *snapshot) {
 			}
 		}
 	}
+	// several transfers can share one transaction hash (two messages of one hub transaction, possibly to different
+	// chains): the status is per hash, so refunding one sibling marks the hash while the other is rightly still live
+	hashUseBefore := map[string]int{}
+	for _, c := range g.chains {
+		for _, s := range b.pool[c] {
+			hashUseBefore[s.txHash]++
+		}
+		for _, bt := range b.batches[c] {
+			for _, s := range bt.txs {
+				hashUseBefore[s.txHash]++
+			}
+		}
+	}
 	for _, c := range g.chains {
 		for _, s := range a.pool[c] {
 			// (the refund of a chain-to-chain transfer is itself a new transfer under the same hash: only
 			// transfers that existed before this operation are meant)
-			if s.txHash != "" && !strings.HasPrefix(s.txHash, "#") && hashUse[s.txHash] == 1 && a.status[s.txHash] == 4 && b.status[s.txHash] != 4 && s.id <= b.lastSte[c] {
+			if s.txHash != "" && !strings.HasPrefix(s.txHash, "#") && hashUse[s.txHash] == 1 && hashUseBefore[s.txHash] == 1 && a.status[s.txHash] == 4 && b.status[s.txHash] != 4 && s.id <= b.lastSte[c] {
 				m.report(g, "refunded-transfer-still-live", fmt.Sprintf("chain %s id %d: its transaction %s became REFUNDED during %v and the transfer is still in the pool", c, s.id, s.txHash, w))
 			}
 		}
@@ -2454,6 +2468,10 @@ func admissibleEvent(line string) bool {
 // ---------------------------------------------------------------- C08 (hub side, closed loop with the compiled contract)
 
 func (m *Monitor) checkC08(g *Gen, w []string, out string, b, a *snapshot) {
+	if g.env.mx != nil {
+		m.checkC08Mx(g, w, out)
+		return
+	}
 	ev := g.env.evm
 	if ev != nil && w[0] == "confirm" && out == "ok" && len(w) >= 7 && w[1] == ev.chain {
 		// ghost: the confirmations the message server accepted, per outgoing transaction
